@@ -128,6 +128,12 @@ func Load(path, property string) ([]*Entry, error) {
 			continue
 		}
 
+		// curation aid: VERIF_KF_IGNORE=<id>,<id> drops entries so that what they
+		// cover is printed by the discover mode (used to build the "@sigs" lists)
+		if ign := os.Getenv("VERIF_KF_IGNORE"); ign != "" && strings.Contains(","+ign+",", ","+e.ID+",") {
+			continue
+		}
+
 		var m map[string]string
 
 		ms := strings.TrimSpace(parts[1])
